@@ -235,7 +235,9 @@ class IntegerConstraint(Constraint):
             self.taster[LONGNEG] = maxBytes
 
     def checkObject(self, obj, inbound):
-        if not isinstance(obj, int):
+        # bool is a subclass of int, but it is serialized as a 'boolean'
+        # sequence which the taster above does not accept
+        if isinstance(obj, bool) or not isinstance(obj, int):
             raise Violation("'%r' is not a number" % (obj,))
         if self.maxBytes == -1:
             if obj >= 2**31 or obj < -2**31:
